@@ -424,6 +424,41 @@ func checkC13(c *hx.Checker) {
 		}
 		c.Case(hx.CaseInfo{ID: j.id, Tags: j.tags, NonTrivial: j.nt, Sample: map[string]any{"case": j.id, "expect": j.mc.Expect}}, func() *hx.Violation { return j.mc.run() })
 	})
+	// symbolic dimensions whose NAME looks like a number (or like nothing): still symbolic - any extent is accepted and
+	// the accessors report a dynamic axis
+	for _, name := range []string{"2", "16", "0", "-1", " 3", "3 ", "1e1", "0x2", "N", "batch_size"} {
+		name := name
+		g := &onnx.GraphProto{Name: "g"}
+		g.Input = append(g.Input, hx.ValueInfo("x", ref.F32, []hx.DimSpec{{Param: name}, {Fixed: 3}}))
+		g.Node = append(g.Node, hx.Node("Relu", []string{"x"}, []string{"y_x"}, nil))
+		g.Output = append(g.Output, hx.ValueInfoNoShape("y_x"))
+		mb := hx.Marshal(hx.Model(g, 13))
+		for _, rows := range []int{1, 2, 3, 5, 16} {
+			x := ref.Distinct(ref.F32, []int{rows, 3})
+			e, _ := ref.Unary("Relu", x)
+			mcase := newModelCase(mb, map[string]*ref.T{"x": x}, "outputs", map[string]*ref.T{"y_x": e}, hx.Num, "")
+			c.Case(hx.CaseInfo{ID: fmt.Sprintf("numeric-looking-dim-name/%q/rows=%d", name, rows), Tags: []string{"symbolic-name"}, NonTrivial: true}, func() *hx.Violation { return mcase.run() })
+		}
+		mbad := newModelCase(mb, map[string]*ref.T{"x": ref.Distinct(ref.F32, []int{2, 2})}, "error", nil, hx.Num, "")
+		c.Case(hx.CaseInfo{ID: fmt.Sprintf("numeric-looking-dim-name/%q/wrong-fixed", name), Tags: []string{"symbolic-name"}, NonTrivial: true}, func() *hx.Violation { return mbad.run() })
+		c.Case(hx.CaseInfo{ID: fmt.Sprintf("numeric-looking-dim-name/%q/introspection", name), Tags: []string{"symbolic-name", "introspection"}, NonTrivial: true}, func() *hx.Violation {
+			mk := func(kind, d string) *hx.Violation {
+				return &hx.Violation{Kind: kind, Detail: d, Replay: map[string]any{"replay_kind": "introspection-name", "name": name}}
+			}
+			m, err := gonnx.NewModelFromBytes(mb)
+			if err != nil {
+				return mk("refused", err.Error())
+			}
+			sh := m.InputShapes()["x"]
+			if len(sh) != 2 || !sh[0].IsDynamic || sh[1].IsDynamic || sh[1].Size != 3 {
+				return mk("wrong-introspection", fmt.Sprintf("InputShapes[x] = %+v for declared [%q, 3]", sh, name))
+			}
+			if sz, err := m.InputDimSize("x", 0); err != nil || sz != 0 {
+				return mk("wrong-introspection", fmt.Sprintf("InputDimSize(x,0) = %d, %v for the symbolic dimension %q", sz, err, name))
+			}
+			return hx.OK("introspection")
+		})
+	}
 	// a nil input map is an empty input set: accepted when nothing is required, refused otherwise - never a panic
 	for name, spec := range map[string]struct {
 		model []byte
@@ -468,6 +503,18 @@ func checkC13(c *hx.Checker) {
 		m, err := gonnx.NewModelFromBytes(mi)
 		if err != nil {
 			return mk("refused", err.Error())
+		}
+		// the same with w declared [N,3] (its default has 2 rows): the axis is dynamic for every accessor, as it is for Run
+		if md2, err := gonnx.NewModelFromBytes(reluModel(map[string][]int64{"a": {2, 3}, "w": {-1, 3}}, map[string]*ref.T{"w": wInit})); err == nil {
+			shw := md2.InputShapes()["w"]
+			if len(shw) != 2 || !shw[0].IsDynamic || shw[1].Size != 3 {
+				return mk("wrong-introspection", fmt.Sprintf("InputShapes[w] = %+v for declared [N,3]", shw))
+			}
+			if sz, err := md2.InputDimSize("w", 0); err != nil || sz != 0 {
+				return mk("wrong-introspection", fmt.Sprintf("InputDimSize(w,0) = %d, %v for a symbolic dimension of an initializer-backed input (the default's extent is not the declaration)", sz, err))
+			}
+		} else {
+			return mk("refused", "model with a symbolic declaration of an initializer-backed input does not load: "+err.Error())
 		}
 		names := append([]string{}, m.InputNames()...)
 		sort.Strings(names)
